@@ -4,4 +4,5 @@ SilentNone == {{}}
 SilentAny  == {S \in SUBSET Val : Cardinality(S) <= F}
 SilentOne == {{0}}
 SilentThree == {{3}}
+SilentEach == {{v} : v \in Val}
 ==============================================================================
